@@ -348,7 +348,7 @@ func ontEpisode(t *testing.T, r *kit.Run, ep int, maxN int, steps int) {
 				"applicable_set_size": nset, "distinct_valid_members": distinct, "model_key_heights": fmt.Sprint(keysOf(w.epochs))}
 			switch {
 			case !hasSet:
-				r.Violation("ont:header-stored-without-any-peer-set-below", fmt.Sprintf("header at height %d stored although no peer set is recorded below it", h.height), replay)
+				viol(r, "ont:header-stored-without-any-peer-set-below", fmt.Sprintf("header at height %d stored although no peer set is recorded below it", h.height), replay)
 				return
 			case 3*distinct < nset:
 				key := "ont:header-stored-below-one-third"
@@ -357,7 +357,7 @@ func ontEpisode(t *testing.T, r *kit.Run, ep int, maxN int, steps int) {
 						key = "ont:header-duplicate-signer-counted"
 					}
 				}
-				r.Violation(key, fmt.Sprintf("header at height %d stored with %d distinct valid member(s) of the %d-member set recorded at key height %d", h.height, distinct, nset, kh), replay)
+				viol(r, key, fmt.Sprintf("header at height %d stored with %d distinct valid member(s) of the %d-member set recorded at key height %d", h.height, distinct, nset, kh), replay)
 				return
 			}
 			if h.shape == "exactly-one-third" && nset >= 1 {
@@ -380,7 +380,7 @@ func ontEpisode(t *testing.T, r *kit.Run, ep int, maxN int, steps int) {
 		// peer sets recorded in storage must be exactly those announced by stored headers
 		got, err := storedPeerSets(e)
 		if err != nil {
-			r.Violation("ont:peer-records-unreadable", err.Error(), nil)
+			viol(r, "ont:peer-records-unreadable", err.Error(), nil)
 			return
 		}
 		for kh, ids := range got {
@@ -390,12 +390,12 @@ func ontEpisode(t *testing.T, r *kit.Run, ep int, maxN int, steps int) {
 				descs = append(descs, h.desc)
 			}
 			if !ok {
-				r.Violation("ont:peer-set-recorded-without-stored-header", fmt.Sprintf("a peer set is recorded at key height %d but no accepted header announced it", kh),
+				viol(r, "ont:peer-set-recorded-without-stored-header", fmt.Sprintf("a peer set is recorded at key height %d but no accepted header announced it", kh),
 					map[string]interface{}{"call_ok": rec.Ok, "headers": descs})
 				return
 			}
 			if !sameIDs(ids, want) {
-				r.Violation("ont:recorded-peer-set-differs-from-announced", fmt.Sprintf("peer set at key height %d differs from the one announced by the accepted header", kh),
+				viol(r, "ont:recorded-peer-set-differs-from-announced", fmt.Sprintf("peer set at key height %d differs from the one announced by the accepted header", kh),
 					map[string]interface{}{"call_ok": rec.Ok, "headers": descs})
 				return
 			}
@@ -602,7 +602,7 @@ func neoEpisode(t *testing.T, r *kit.Run, ep int, maxN int, steps int) {
 		}
 		replay := map[string]interface{}{"router": "neo", "tracked_before": before, "tracked_after": after, "call_ok": rec.Ok, "call_err": rec.Err, "headers": descs}
 		if after == nil {
-			r.Violation("neo:tracked-record-vanished", "consensus record unreadable after the call", replay)
+			viol(r, "neo:tracked-record-vanished", "consensus record unreadable after the call", replay)
 			return
 		}
 		if !changed {
@@ -653,7 +653,7 @@ func neoEpisode(t *testing.T, r *kit.Run, ep int, maxN int, steps int) {
 				key = "neo:change-without-m-distinct-signatures"
 			}
 		}
-		r.Violation(key, fmt.Sprintf("tracked consensus moved %+v -> %+v without a justifying header", *before, *after), replay)
+		viol(r, key, fmt.Sprintf("tracked consensus moved %+v -> %+v without a justifying header", *before, *after), replay)
 		return
 	}
 }
